@@ -96,6 +96,21 @@ def main(argv):
             body.append(rnd.choice(toks))          # base case keeps every rule productive and non-nullable
             memo = " (memo)" if rnd.random() < 0.3 else ""
             lines.append(f"{nm}{memo}: " + " | ".join(body))
+        if rnd.random() < 0.5:
+            # twin groups: same shape (and the same text once item names are dropped) but different bindings / nested actions;
+            # a generator that shares one helper rule between them returns the wrong action value for the second
+            t1, t2 = rnd.choice(toks), rnd.choice(toks)
+            l1 = rnd.choice(lits)
+            twins = [(f"(a={t1} b={t2} {{ a }})", f"(b={t1} a={t2} {{ a }})"),
+                     (f"(a={t1} {t2} {{ a }})", f"({t1} a={t2} {{ a }})"),
+                     (f"((n={t1} {t2} {{ n }}) {l1} NAME)", f"(({t1} n={t2} {{ n }}) {l1} NAME)"),
+                     (f"(a=&{t1} {t2})", f"(&{t1} {t2})"),
+                     (f"(a={t1} b={t2} {{ (a, b) }})", f"(a={t1} b={t2} {{ (b, a) }})")]
+            x, y = rnd.choice(twins)
+            if rnd.random() < 0.5:
+                x, y = y, x
+            lines.append(f"rt: p={x} {rnd.choice(lits)} q={y} {{ (p, q) }}")
+            lines[1] = lines[1] + " | rt"
         text = "\n".join(lines) + "\n"
         path = os.path.join(tmpdir, f"g{gi}.gram")
         open(path, "w").write(text)
